@@ -99,6 +99,24 @@ def gen_cases(rng, tier):
         y0, y1 = rng.uniform(2, 5), rng.uniform(12, 17)
         pts = [(x0, y0), (x1, y0 + rng.uniform(0, 2)), (x1, y1), (x0, y1 - rng.uniform(0, 2))]
         cases.append(("fill_px", [i % 2, 1, (i // 2) % 2, 8230, 20, 8160, 8225, 750, 350] + list(IDENT) + poly_ops(pts, grid=64.0)))
+    # wide shapes that start far inside the first tile and end beyond the seam (the path's bounds are much wider than one
+    # tile's worth of supersampled columns is not: each tile must be filled with ITS OWN clip), Pixmap and Mask
+    for i in range(6 if tier == "quick" else 48):
+        x0 = rng.choice([100.0, 4000.5, 7000.25, 8100.0])
+        x1 = 8191 + rng.uniform(4, 30)
+        y0, y1 = rng.uniform(2, 5), rng.uniform(12, 17)
+        pts = [(x0, y0), (x1, y0 + rng.uniform(0, 3)), (x1 - rng.uniform(0, 6), y1), (x0, y1 - rng.uniform(0, 2))]
+        cases.append(("fill_px", [i % 2, 1, (i // 2) % 2, 8230, 20, 8160, 8229, 750, 350] + list(IDENT) + poly_ops(pts, grid=64.0)))
+    # three tiles in a row / in a column (16400 px): shapes in the second tile, across the second seam (16382) and in the third
+    for i in range(6 if tier == "quick" else 36):
+        xa = [16300.0, 16370.5, 16386.25][i % 3] + rng.uniform(0, 3)
+        xb = xa + rng.uniform(6, 12)
+        y0, y1 = rng.uniform(1, 4), rng.uniform(7, 11)
+        pts = [(xa, y0), (xb, y0 + rng.uniform(0, 1)), (xb, y1), (xa + rng.uniform(0, 2), y1)]
+        if (i // 3) % 2 == 0:
+            cases.append(("fill_px", [i % 2, 1, (i // 6) % 2, 16400, 12, 16290, 16399, 750, 350] + list(IDENT) + poly_ops(pts, grid=64.0)))
+        else:   # the same transposed: a 12 x 16400 pixmap, the picture moved to the last rows by the transform
+            cases.append(("fill_px", [i % 2, 1, (i // 6) % 2, 12, 16400, 0, 12, 750, 350] + [0, f2b(1.0), f2b(1.0), 0, 0, 0] + poly_ops(pts, grid=64.0)))
     return cases
 
 
